@@ -2720,8 +2720,9 @@ impl CommandParser {
             return Err(FerrousError::Command(CommandError::WrongNumberOfArguments("EXPIRE".into())));
         }
         let key = Self::extract_bytes(&frames[1])?;
-        let seconds = Self::extract_string(&frames[2])?.parse::<u64>()
-            .map_err(|_| FerrousError::Command(CommandError::InvalidIntegerValue))?;
+        // A non-positive time expires the key at once
+        let seconds = Self::extract_string(&frames[2])?.parse::<i64>()
+            .map_err(|_| FerrousError::Command(CommandError::InvalidIntegerValue))?.max(0) as u64;
         Ok(KeyCommand::Expire { key, seconds })
     }
 
@@ -2730,8 +2731,8 @@ impl CommandParser {
             return Err(FerrousError::Command(CommandError::WrongNumberOfArguments("PEXPIRE".into())));
         }
         let key = Self::extract_bytes(&frames[1])?;
-        let milliseconds = Self::extract_string(&frames[2])?.parse::<u64>()
-            .map_err(|_| FerrousError::Command(CommandError::InvalidIntegerValue))?;
+        let milliseconds = Self::extract_string(&frames[2])?.parse::<i64>()
+            .map_err(|_| FerrousError::Command(CommandError::InvalidIntegerValue))?.max(0) as u64;
         Ok(KeyCommand::PExpire { key, milliseconds })
     }
 
